@@ -212,7 +212,9 @@ struct Job<'a> {
     payload: Payload<'a>,
 }
 
-fn check_doc(rep: &mut Report, job: &Job<'_>, tuples: &[Vec<Val>], vm_tuples: &[Vec<Value>]) -> Option<(u64, u64, u64)> {
+/// `None` = the compiler does not accept the document; `Some(None)` = accepted, but an in-process
+/// comparison already failed (reported); `Some(Some(hashes))` = ready for the cross-process comparison.
+fn check_doc(rep: &mut Report, job: &Job<'_>, tuples: &[Vec<Val>], vm_tuples: &[Vec<Value>]) -> Option<Option<(u64, u64, u64)>> {
     let d = &job.doc;
     let key = |what: &str| format!("{}: {what}", d.id);
     let replay = || json!({"doc": d.id, "text": d.text, "markdown": d.markdown, "ffi": ffi_name(d.ffi)});
@@ -234,23 +236,23 @@ fn check_doc(rep: &mut Report, job: &Job<'_>, tuples: &[Vec<Val>], vm_tuples: &[
     rep.count("disagreements_checked", 1);
     let Some(m2) = m2 else {
         rep.violation(key("second compilation failed"), "the same text compiled once and was rejected the second time", replay());
-        return None;
+        return Some(None);
     };
     if m1 != m2 {
         rep.violation(key("two compilations differ structurally"), "Module != Module for two compilations of the same text in one process", replay());
-        return None;
+        return Some(None);
     }
     let (e1, e2) = match (encode(&m1), encode(&m2)) {
         (Ok(a), Ok(b)) => (a, b),
         (Err(e), _) | (_, Err(e)) => {
             rep.violation(key("module does not encode"), e, replay());
-            return None;
+            return Some(None);
         }
     };
     rep.count("disagreements_checked", 3);
     if e1.postcard != e2.postcard || e1.cbor != e2.cbor || e1.rkyv != e2.rkyv {
         rep.violation(key("two compilations differ in serialized bytes"), "postcard/CBOR/rkyv bytes of two in-process compilations differ", replay());
-        return None;
+        return Some(None);
     }
     // round trips
     let machine = Machine::from_module(m1.clone()).unwrap_or_else(|_| mcx::machinery_error("module version"));
@@ -400,7 +402,50 @@ fn check_doc(rep: &mut Report, job: &Job<'_>, tuples: &[Vec<Val>], vm_tuples: &[
         }
     }
     rep.count("transitions", steps.max(1));
-    Some(hashes(&e1))
+    Some(Some(hashes(&e1)))
+}
+
+/// Struct literals with two and three composition sources over structs with disjoint fields, in
+/// function, finish-function, action and command bodies and nested in other expressions.
+fn composition_doc() -> String {
+    let mut s = String::from(
+        "struct P { p int }\nstruct Q { q bool }\nstruct R { r string }\nstruct W { p int, q bool, r string, z int }\n\
+         struct V { p int, q bool }\nfact F[k int]=>{v int}\neffect Eff { p int, q bool, r string, z int }\n\
+         command Cmd { fields { p int, q bool, r string, z int } seal { return todo() } open { return todo() } policy {\n\
+           let a = P { p: this.p } let b = Q { q: this.q } let c = R { r: this.r }\n\
+           let w = W { z: 1, ...a, ...b, ...c }\n\
+           check w.q else recall again()\n\
+           finish { emit Eff { z: 2, ...c, ...b, ...a } create F[k: w.p]=>{v: w.z} } }\n\
+           recall again() { let a = P { p: this.p } let b = Q { q: true } let c = R { r: \"x\" } finish { emit Eff { z: 3, ...b, ...c, ...a } } } }\n\
+         action act(p int, q bool, r string) {\n\
+           let a = P { p: p } let b = Q { q: q } let c = R { r: r }\n\
+           publish Cmd { z: 0, ...a, ...b, ...c }\n\
+           if q { publish Cmd { z: 1, ...c, ...a, ...b } }\n\
+           match p { 0 => { publish Cmd { r: r, z: 2, ...b, ...a } } _ => { } } }\n",
+    );
+    // functions: every order of 2 and 3 sources, nested in calls / comparisons / if / match / option
+    let orders3 = [["a", "b", "c"], ["a", "c", "b"], ["b", "a", "c"], ["b", "c", "a"], ["c", "a", "b"], ["c", "b", "a"]];
+    let mut k = 0;
+    for o in orders3 {
+        let src = o.iter().map(|x| format!("...{x}")).collect::<Vec<_>>().join(", ");
+        for body in [
+            format!("return W {{ z: p, {src} }}"),
+            format!("let w = Some(W {{ z: 1, {src} }}) match w {{ Some(v) => {{ return v }} None => {{ return W {{ z: 2, {src} }} }} }}"),
+            format!("if q {{ return W {{ z: saturating_add(p, 1), {src} }} }} return if (W {{ z: 0, {src} }}) == (W {{ z: 0, {src} }}) {{ :W {{ z: 5, {src} }} }} else {{ :W {{ z: 6, {src} }} }}"),
+        ] {
+            s.push_str(&format!(
+                "function c3_{k}(p int, q bool, r string) struct W {{ let a = P {{ p: p }} let b = Q {{ q: q }} let c = R {{ r: r }} {body} }}\n"
+            ));
+            k += 1;
+        }
+    }
+    for (i, src) in ["...a, ...b", "...b, ...a"].iter().enumerate() {
+        s.push_str(&format!(
+            "function c2_{i}(p int, q bool) struct V {{ let a = P {{ p: p }} let b = Q {{ q: q }} return V {{ {src} }} }}\n\
+             function c2w_{i}(p int, q bool, r string) int {{ let a = P {{ p: p }} let b = Q {{ q: q }} return (W {{ r: r, z: c2_{i}(p, q).p, {src} }}).z }}\n"
+        ));
+    }
+    s
 }
 
 fn repo_docs() -> Vec<Doc> {
@@ -492,6 +537,10 @@ pub fn run(args: &Args) {
     for (i, text) in fact_docs.into_iter().enumerate() {
         jobs.push(Job { doc: Doc { id: format!("fact-doc-{i}"), text, markdown: false, ffi: Ffi::None }, payload: Payload::Generic });
     }
+    jobs.push(Job {
+        doc: Doc { id: "composition-doc".into(), text: composition_doc(), markdown: false, ffi: Ffi::None },
+        payload: Payload::Generic,
+    });
     let n_generated = jobs.len();
     for d in repo_docs() {
         jobs.push(Job { doc: d, payload: Payload::Generic });
@@ -515,7 +564,7 @@ pub fn run(args: &Args) {
     // ---- in-process checks
     let tuples = c22::arg_tuples(Tier::Quick);
     let vm_tuples: Vec<Vec<Value>> = tuples.iter().map(|t| t.iter().map(vmrun::to_value).collect()).collect();
-    let results: Vec<(Report, Option<(u64, u64, u64)>)> = jobs
+    let results: Vec<(Report, Option<Option<(u64, u64, u64)>>)> = jobs
         .par_iter()
         .map(|j| {
             let mut w = rep.worker();
@@ -523,11 +572,11 @@ pub fn run(args: &Args) {
             (w, h)
         })
         .collect();
-    let mut in_proc: BTreeMap<String, Option<(u64, u64, u64)>> = BTreeMap::new();
+    let mut in_proc: BTreeMap<String, Option<Option<(u64, u64, u64)>>> = BTreeMap::new();
     for ((w, h), j) in results.into_iter().zip(&jobs) {
         rep.absorb(w);
         in_proc.insert(j.doc.id.clone(), h);
-        if h.is_some() && !j.doc.id.contains("batch") && !j.doc.id.starts_with("fact-doc") {
+        if h.is_some() && !j.doc.id.contains("batch") && !j.doc.id.starts_with("fact-doc") && j.doc.id != "composition-doc" {
             rep.count("repository_documents", 1);
             rep.sample(json!({"repository_document": j.doc.id}));
         }
@@ -551,7 +600,9 @@ pub fn run(args: &Args) {
         let text_of = |id: &str| jobs.iter().find(|j| j.doc.id == id).map(|j| j.doc.text.clone()).unwrap_or_default();
         match (mine, v["ok"].as_bool().unwrap_or(false)) {
             (None, false) => {}
-            (Some((p, c, r)), true) => {
+            // already reported by the in-process comparison
+            (Some(None), _) => {}
+            (Some(Some((p, c, r))), true) => {
                 let theirs = (v["postcard"].as_str().unwrap_or(""), v["cbor"].as_str().unwrap_or(""), v["rkyv"].as_str().unwrap_or(""));
                 if theirs != (format!("{p:016x}").as_str(), format!("{c:016x}").as_str(), format!("{r:016x}").as_str()) {
                     rep.violation(
